@@ -322,3 +322,56 @@ Theorem expect_without_disarm_refuted :
   snd (read_final_expect false 7 (bs "POST") 0 true expect_demo) = [SigSendBody; SigSendBody; SigSendBody] /\
   snd (read_final_expect true 7 (bs "POST") 0 true expect_demo) = [SigSendBody].
 Proof. vm_compute. split; reflexivity. Qed.
+
+(* ====================================================================== *)
+(* bytes arriving on an idle connection; reading on after the end         *)
+(* ====================================================================== *)
+
+Lemma client_run_clean : forall evs conn,
+  conn = None \/ conn = Some [] -> client_run true conn evs = answers_alone evs.
+Proof.
+  induction evs as [|[m seg|s] more IH]; intros conn Hc; [reflexivity| |].
+  - assert (Hstep : client_run true conn (EvReq m seg :: more) = client_run true None (EvReq m seg :: more))
+      by (destruct Hc as [->| ->]; reflexivity).
+    rewrite Hstep. cbn [client_run answers_alone].
+    destruct (exchange m [] seg) as [[r b]|].
+    + f_equal. apply IH. destruct (reuse_real r b) eqn:E; [right|left; reflexivity].
+      now rewrite (reuse_real_empties_buffer _ _ E).
+    + f_equal. apply IH. now left.
+  - cbn [client_run answers_alone]. destruct Hc as [->| ->]; [apply IH; now left|].
+    destruct s as [|x s']; cbn [is_nil negb andb app].
+    + apply IH. now right.
+    + apply IH. now left.
+Qed.
+
+(* Whatever the server sends on a connection while it is idle, and whenever, no request is ever
+   answered with it: every request of any sequence of requests and idle-time bytes gets exactly
+   the answer a fresh connection would give it from its own segment. *)
+Theorem idle_bytes_never_answer_a_request evs :
+  client_run true None evs = answers_alone evs.
+Proof. apply client_run_clean. now left. Qed.
+
+Definition idle_demo : list conn_event :=
+  [ EvReq (bs "GET") (bs "HTTP/1.1 204 No Content" ++ [CR; LF; CR; LF]);
+    EvIdleBytes (bs "HTTP/1.1 200 OK" ++ [CR; LF] ++ bs "Content-Length: 6" ++ [CR; LF; CR; LF] ++ bs "STOLEN");
+    EvReq (bs "GET") (bs "HTTP/1.1 200 OK" ++ [CR; LF] ++ bs "Content-Length: 5" ++ [CR; LF; CR; LF] ++ bs "fresh") ].
+
+(* without the idle guard (seeded f-m1) the bytes sent on the idle connection answer the next request *)
+Theorem idle_guard_off_refuted :
+  map (option_map (fun rb => b_data (snd rb))) (client_run false None idle_demo) = [Some []; Some (bs "STOLEN")] /\
+  map (option_map (fun rb => b_data (snd rb))) (client_run true None idle_demo) = [Some []; Some (bs "fresh")].
+Proof. vm_compute. split; reflexivity. Qed.
+
+(* the client's body keeps reporting its first terminal result on every later Read; without the
+   sticky layer (seeded f-m3) a length-delimited body cut short reports the truncation once and
+   a clean end afterwards *)
+Theorem client_reads_sticky fr first k : client_reads_again true fr first k = repeat first k.
+Proof. reflexivity. Qed.
+
+Theorem reads_without_sticky_refuted :
+  client_reads_again false (FrLength 5) BUnexpectedEOF 2 = [BOk; BOk] /\
+  forall fr e k, (forall n, fr <> FrLength n) -> client_reads_again false fr e k = repeat e k.
+Proof.
+  split; [reflexivity|]. intros fr e k H. unfold client_reads_again, body_again.
+  destruct fr; try reflexivity. exfalso. now apply (H n).
+Qed.
